@@ -232,9 +232,15 @@ def none_rule(ctx, R):
                         return t.id, None
                     if isinstance(t, ast.NamedExpr) and isinstance(t.target, ast.Name):
                         return t.target.id, t.value
+                    if isinstance(t, ast.UnaryOp) and isinstance(t.op, ast.Not) and isinstance(t.operand, ast.Name):
+                        return t.operand.id, None  # `if not method: ... else: <assignments>`
                     return None, None
 
-                asg = [x for x in ast.walk(f.node) if isinstance(x, ast.If) and _tested(x)[0] and any(isinstance(y, ast.Assign) and any(isinstance(t, ast.Name) and t.id == pr for tt in y.targets for t in ast.walk(tt)) for y in x.body)]
+                def _truthy_arm(x):
+                    neg = isinstance(x.test, ast.UnaryOp) and isinstance(x.test.op, ast.Not)
+                    return x.orelse if neg else x.body
+
+                asg = [x for x in ast.walk(f.node) if isinstance(x, ast.If) and _tested(x)[0] and any(isinstance(y, ast.Assign) and any(isinstance(t, ast.Name) and t.id == pr for tt in y.targets for t in ast.walk(tt)) for y in _truthy_arm(x))]
                 mname = _tested(asg[0])[0] if asg else None
                 defs = [x.value for x in ast.walk(f.node) if isinstance(x, ast.Assign) and asg and any(isinstance(t, ast.Name) and t.id == mname for t in x.targets)]
                 defs += [x.value for x in ast.walk(f.node) if isinstance(x, ast.NamedExpr) and asg and isinstance(x.target, ast.Name) and x.target.id == mname]
@@ -328,6 +334,13 @@ def _role_texts(ctx, f, e):
 
     try:
         out.add(ntext(Sub().visit(acopy(e))).replace("LOCAL__", "<local>"))
+    except Exception:
+        pass
+    try:
+        # ... and the same after aliases with one definition have been resolved (`steps = TABLE; steps[i - 1]`)
+        r = _reparse(resolve_local(f, e))
+        if r is not None:
+            out.add(ntext(Sub().visit(r)).replace("LOCAL__", "<local>"))
     except Exception:
         pass
     return out
